@@ -9,9 +9,13 @@ import json, math, os, subprocess, tempfile, glob
 import vlib
 from vlib import VERIF
 
-# False: model of /repo as it is.  True: model of /repo after notes/C09-zero-residual.patch has been applied
-# (flip this when the patch lands; the driver then replays with [fixed = true]).
-FIXED_ZERO_RESIDUAL = os.environ.get("C09_FIXED", "0") == "1"
+# The repair notes/C09-zero-residual.patch is in /repo (commit 16638da), so the model of the code that exists is the
+# instance [fixed := code_now] (= true) of Model/C09_Minimize.v; the extracted driver replays it by default and the
+# property theorems are stated for it.  Nothing has to be set.  C09_FIXED=0 is a diagnostic switch only: it replays
+# the historical model of the code before 16638da (a tree in which the fix was reverted then corresponds again, while
+# the property checks of the harness still report the violation); on the current tree it yields a correspondence
+# failure, so it can never hide anything.
+PRE_FIX_MODEL = os.environ.get("C09_FIXED", "1") == "0"
 
 DELTA_TOL = 1e-9
 
@@ -229,7 +233,7 @@ def corr(seed, tier):
         with open(cf, "w") as fh:
             for c in cases:
                 fh.write(model_line(c) + "\n")
-        cmd = f"ulimit -s 1000000 2>/dev/null; exec {mbin} {cf}" + (" fixed" if FIXED_ZERO_RESIDUAL else "")
+        cmd = f"ulimit -s 1000000 2>/dev/null; exec {mbin} {cf}" + (" pre-16638da" if PRE_FIX_MODEL else "")
         m = subprocess.run(["bash", "-c", cmd], stdout=subprocess.PIPE, stderr=subprocess.PIPE, text=True, timeout=2400)
         if m.returncode != 0:
             res["problems"].append({"kind": "model-driver-crashed", "rc": m.returncode, "tail": m.stderr[-1500:]})
@@ -261,6 +265,7 @@ def corr(seed, tier):
     res["evaluations"] += ncmp
     res["maxerr"] = {"Delta model vs implementation (relative)": maxe}
     res["stats"] = stats
+    res["stats"]["model_instance"] = "pre-16638da (fixed = false, diagnostic)" if PRE_FIX_MODEL else "code_now (fixed = true, /repo since 16638da)"
     res["stats"]["distinct_nontrivial"] = sum(1 for c in cases if len(c["its"]) >= 2)
     res["stats"]["rule"] = ("one case = one minimize call on a generated problem/start/options; non-trivial = at least two loop "
                             "iterations executed; ids are unique per run")
@@ -282,12 +287,12 @@ CFG = dict(
     corr=[corr],
     trusted_base=[
         "Coq 8.16.1 kernel incl. its vm_compute machine; full .vo build (no -vos); extraction to OCaml (ExtrOcamlBasic only) and ocamlopt for the replay driver",
-        "Model/C09_Minimize.v + Model/C09_TrStrategy.v: hand transcription of optim.hpp:63-172 and tr_strategy.hpp (file:line cited), tied to /repo every run by replaying the recorded runs of the real code (status, iteration count, callbacks, accept/reject pattern exact; Delta to 1e-9)",
+        "Model/C09_Minimize.v + Model/C09_TrStrategy.v: hand transcription of optim.hpp:63-173 (instance code_now: with the r_n == 0 disjunct of :147, /repo since 16638da) and tr_strategy.hpp (file:line cited), tied to /repo every run by replaying the recorded runs of the real code (status, iteration count, callbacks, accept/reject pattern exact; Delta to 1e-9)",
         "oracle contract (Section hypothesis exact_oracle): pred_red >= 0, pred_red = 0 or r = 0 -> zero step (C10's theorem, C07 rplus(x,0)=x) - checked at run time on every iteration as fl_contract_a/b/c",
         "harness/h_c09.cpp: recomputes the numerical sub-results of each iteration with the library's dr / solve_trust_region as oracle and checks the recomputed rho against the rho the library hands to the strategy (bitwise); planted minimisers (long-double QR for linear LS) independent of smooth",
     ],
     assumptions=[
-        "exact arithmetic in the cost_monotone theorem; the floating-point variant cost_monotone_fl assumes monotone rounding, the IEEE sign rule of division and a relative slack on the r_n == 0 / pred_red <= 0 branches, all checked at run time by the harness (the slack clause FAILS in the region of known finding C09-zero-residual-nan)",
+        "exact arithmetic in the cost_monotone theorem; the floating-point variant cost_monotone_fl assumes monotone rounding, the IEEE sign rule of division and a relative slack on the r_n == 0 / pred_red <= 0 branches, all checked at run time by the harness on every iteration of every run",
         "convergence clause (Ftol/Ptol within 1e-3 of the planted minimiser) is checked by the harness on generated well-conditioned problems for tolerances <= 1e-6 and a fresh strategy object; it is not a theorem",
         "differentiation modes available in this build: Numerical, Analytic, Default (autodiff / Ceres are not installed)",
     ],
@@ -295,7 +300,7 @@ CFG = dict(
 
 TEXT = dict(
     technique="Coq proof over a hand-written executable model of the minimize loop and both trust-region strategies (oracle record for the numerics) + replay of recorded real runs through the extracted model + property harness on the real code",
-    text="Machine-checked theorems (Coq 8.16, no axioms) over EVERY oracle sequence, option record, start and initial strategy state: callback points have non-increasing cost and the result is never worse than the start (exact arithmetic, any strategy that only takes steps with rho>0 - proved for Ceres and Disney; refuted for arbitrary user strategies), floating-point variant with relative slack; iter <= max_iter, callbacks = 1 + accepted steps <= max_iter+1; MaxIters iff no convergence test fired (then iter = max_iter), a Ftol/Ptol status is the verdict of the last executed iteration, which took a step; final arguments = last callback point; Delta>0 preserved, rejection at least halves (Ceres) / divides by 10 (Disney) Delta, acceptance bounds. The model is tied to /repo by replaying ~1000 recorded minimize runs per tier unit (linear LS static/dynamic/sparse, polynomial, SO3/SE2/SE3/Bundle alignment, multi-argument, sparse Jacobian, curve fitting; Numerical/Analytic/Default; Ceres/Disney/scripted/reused strategy; all option boundaries incl. max_iter 0/1, tolerances 0 and negative; degenerate starts). Convergence within 1e-3 of planted minimisers by harness (partial: correspondence only).",
-    note="Known finding C09-zero-residual-nan: with ptol <= 0 and an exactly zero residual the loop spins, Delta underflows, lambda = 1/Delta = inf, the solver returns NaN and the r_n == 0 branch stores NaN into the arguments (model side: C09_zero_residual_spin_refuted / C09_zero_residual_stops_fixed; repair notes/C09-zero-residual.patch, then flip the default of FIXED_ZERO_RESIDUAL (env C09_FIXED) in scripts/props_C09.py). Numerical differentiation perturbs the arguments in place, so final arguments equal the last callback point only up to ~1e-14 in Numerical mode.",
+    text="Machine-checked theorems (Coq 8.16, no axioms) over EVERY oracle sequence, option record, start and initial strategy state: callback points have non-increasing cost and the result is never worse than the start (exact arithmetic, any strategy that only takes steps with rho>0 - proved for Ceres and Disney; refuted for arbitrary user strategies), floating-point variant with relative slack; iter <= max_iter, callbacks = 1 + accepted steps <= max_iter+1; MaxIters iff no convergence test fired (then iter = max_iter), a Ftol/Ptol status is the verdict of the last executed iteration, which took a step; final arguments = last callback point; Delta>0 preserved, rejection at least halves (Ceres) / divides by 10 (Disney) Delta, acceptance bounds; an iteration that sees a zero residual is the last one and the run reports Ftol (C09_zero_residual_stops, C09_zero_residual_ends_run; also checked on the real code as zero_residual_stops). All loop theorems are stated for the model instance code_now = the code since 16638da. The model is tied to /repo by replaying ~1000 recorded minimize runs per tier unit (linear LS static/dynamic/sparse, polynomial, SO3/SE2/SE3/Bundle alignment, multi-argument, sparse Jacobian, curve fitting; Numerical/Analytic/Default; Ceres/Disney/scripted/reused strategy; all option boundaries incl. max_iter 0/1, tolerances 0 and negative; degenerate starts). Convergence within 1e-3 of planted minimisers by harness (partial: correspondence only).",
+    note="Finding C09-zero-residual-nan (with ptol <= 0 and an exactly zero residual the loop spun, Delta underflowed, lambda = 1/Delta = inf, the solver returned NaN and the r_n == 0 branch stored NaN into the arguments) is FIXED in /repo by 16638da (notes/C09-zero-residual.patch); the entry in known_findings.d/C09.jsonl has status fixed and suppresses nothing, so a return of the behaviour is a VIOLATION (property checks monotone / fl_contract_b / not_worse_than_start / zero_residual_stops plus correspondence status impl=MaxIters model=Ftol). C09_zero_residual_spin_refuted is kept as a historical lemma about the pre-fix instance (fixed = false) of the parametrised model.",
     design_ref="DESIGN.md section 5 C09; notes/C09.md",
 )
